@@ -39,7 +39,7 @@ def clang_ir(src: str, out: str, olevel: str, target: str, incs: Sequence[str], 
     elif target != "x86_64":
         raise ValueError(target)
     for d in defines:
-        cmd.append("-D" + d)
+        cmd.append("-U" + d[2:] if d.startswith("U:") else "-D" + d)  # "U:NAME" undefines a predefined macro (a toolchain that lacks it)
     for i in incs:
         cmd += ["-I", i]
     cmd += ["-o", out, src]
@@ -79,6 +79,10 @@ class CBuild:
         self.bytes_macro = {m.group(1): (m.group(2), int(m.group(3))) for m in re.finditer(r"// Number of bytes to encode struct (\w+)\n#define (BYTES_LENGTH_\w+) (\d+)", self.header)}
         self._layout_written = False
         self.optimize = optimize
+        # documented scheme: the PascalCase form of c.name_prefix leads every C type and function name of the main file
+        pre = next((v.strip('"') for k, v in getattr(case.proto, "options", []) if k == "c.name_prefix"), "")
+        if pre:
+            self.name_prefix = "".join(w[:1].upper() + w[1:] for w in pre.strip("_").split("_") if w)
 
     def cfiles(self) -> List[str]:
         return [os.path.join(self.gen, s + "_bp.c") for s in self.stems]
